@@ -169,8 +169,10 @@ def run(db, chk):
                            sample=(n_sc % 131 == i), extra={"unit": uname})
         # ---- F4: priority flood on every small graph (bounded): minimax level within the margin ----
         if uname == UNITS[0] or chk.tier == "thorough":
-            n_sc += minimax_rule(chk, uname, pf)
-            n_sc += mstpipe.run_rule(db, chk, uname, None, "C02-F5")
+            if chk.want("C02-F4"):
+                n_sc += minimax_rule(chk, uname, pf)
+            if chk.want("C02-F5"):
+                n_sc += mstpipe.run_rule(db, chk, uname, None, "C02-F5")
         for E in (1.0, 0.0, -2.5):
             for ca in sinks.CLASSES:
                 for cb in sinks.CLASSES:
@@ -205,4 +207,10 @@ def run(db, chk):
                "update (shared with C09-P2): stale passes of a previous call over-fill depressions",
                pred=lambda o: "basin_graph" in o["instance"] or "mst_sink_resolver" in o["instance"],
                min_instances=20)
+    chk.absorb(db, "C01", {"C01-E7"}, "C02-F6", "the spanning-tree resolver acts whenever an outlet is not a base "
+               "level (shared with C01-E7): an early exit with pits left returns the input unfilled", min_instances=20)
+    if chk.tier == "thorough":
+      chk.absorb(db, "C15", {"C15-K1", "C15-K4"}, "C02-F7", "the tree of basins is a MINIMUM spanning tree over the pass "
+               "elevations (shared with C15-K1 / K4): a heavier tree spills depressions over a higher pass",
+               min_instances=100)
     chk.count_scenarios(n_sc, True)
